@@ -333,6 +333,8 @@ pub fn oracle(ctx: &mut Ctx) {
         std::fs::write(w.join("in.png"), &case.input).unwrap();
         let route = rng.below(7);
         let stdin_dest = rng.below(3);
+        let nested_dir = rng.bool();
+        let dir_file = if nested_dir { "outdir/a/b/in.png" } else { "outdir/in.png" };
         let mut args = fv.args.clone();
         // a timeout that is never reached changes nothing (a day; the largest value the option takes)
         if rng.chance(1, 8) {
@@ -356,7 +358,7 @@ pub fn oracle(ctx: &mut Ctx) {
             },
             0 => {}
             1 => { args.push("--out".into()); args.push("out.png".into()); }
-            2 => { args.push("--dir".into()); args.push("outdir".into()); }
+            2 => { args.push("--dir".into()); args.push(if nested_dir { "outdir/a/b".into() } else { "outdir".into() }); }
             3 => args.push("--stdout".into()),
             4 => args.push("--pretend".into()),
             _ => {
@@ -462,7 +464,7 @@ pub fn oracle(ctx: &mut Ctx) {
                 let untouched = std::fs::read(w.join("in.png")).ok().as_ref() == Some(&case.input);
                 if r.status != Some(1) {
                     st.fail("exit-status", format!("exit status {:?} although the only file of the run cannot be decoded: the manual says 1 ({})", r.status, args.join(" ")), replay);
-                } else if !untouched || !r.stdout.is_empty() || w.join("out.png").exists() || w.join("outdir/in.png").exists() {
+                } else if !untouched || !r.stdout.is_empty() || w.join("out.png").exists() || w.join(dir_file).exists() {
                     st.fail("routing", format!("a file that cannot be decoded was delivered or modified ({})", args.join(" ")), replay);
                 } else { st.count("failed_file_exit_1"); }
             }
@@ -486,7 +488,7 @@ pub fn oracle(ctx: &mut Ctx) {
             }
             2 => {
                 if after_in != case.input { bad = Some("input modified although --dir was given".into()); }
-                else if std::fs::read(w.join("outdir/in.png")).ok().as_ref() != Some(&lib) { bad = Some("--dir/<same name> differs from the library's bytes".into()); }
+                else if std::fs::read(w.join(dir_file)).ok().as_ref() != Some(&lib) { bad = Some("--dir/<same name> differs from the library's bytes (or the directory was not created)".into()); }
             }
             3 => {
                 if after_in != case.input { bad = Some("input modified although --stdout was given".into()); }
@@ -519,7 +521,7 @@ pub fn oracle(ctx: &mut Ctx) {
         }
         files.retain(|f| f != "dump.txt"); // the option dump requested by this harness
         files.sort();
-        let want: Vec<&str> = match route { 1 => vec!["in.png", "out.png"], 2 => vec!["in.png", "outdir/in.png"], 6 if stdin_dest == 1 => vec!["in.png", "out.png"], _ => vec!["in.png"] };
+        let want: Vec<&str> = match route { 1 => vec!["in.png", "out.png"], 2 => vec!["in.png", dir_file], 6 if stdin_dest == 1 => vec!["in.png", "out.png"], _ => vec!["in.png"] };
         if bad.is_none() && files != want {
             bad = Some(format!("files after the run are {:?}, expected {:?}", files, want));
         }
@@ -578,7 +580,7 @@ pub fn oracle(ctx: &mut Ctx) {
         let (img, _) = crate::gen::gen_himg(&mut rng, 4);
         let c2 = img.encode_png(&mut rng, &c2pa);
         let kinds = ["ok", "failed", "skipped"];
-        let n = rng.below(4) as usize;
+        let n = rng.below(7) as usize;
         let mut files = vec![];
         let mut results = vec![];
         for k in 0..n {
@@ -590,7 +592,14 @@ pub fn oracle(ctx: &mut Ctx) {
             results.push(kind);
         }
         // a C2PA file is skipped only under a policy that keeps the manifest
-        let mut args: Vec<String> = vec!["-q".into(), "--keep".into(), "caBX".into(), "--pretend".into()];
+        // half of the rounds only pretend; the others deliver into a directory (two levels of which do not exist yet: "if
+        // the directory does not exist, it will be created"), on a pool of one, two or four threads: every file of the run
+        // is handled on its own - what one file's outcome is never decides whether another one is processed
+        let deliver = round % 2 == 1;
+        let mut args: Vec<String> = vec!["-q".into(), "--keep".into(), "caBX".into()];
+        if deliver {
+            args.extend(["--force".into(), "--dir".into(), "o/deep/er".into(), "--threads".into(), (*rng.choose(&["1", "2", "4"])).into()]);
+        } else { args.push("--pretend".into()); }
         let expect;
         if files.is_empty() {
             // a directory without --recursive: nothing to do
@@ -605,6 +614,24 @@ pub fn oracle(ctx: &mut Ctx) {
         if r.status != Some(expect) {
             st.fail("exit-status", format!("exit status {:?}, expected {} for results {:?}", r.status, expect, results),
                 format!("{{\"args\": {}, \"results\": {}}}", jstr(&args.join(" ")), jstr(&format!("{:?}", results))));
+        }
+        if deliver && !files.is_empty() {
+            st.count("multi_file_delivery_cases");
+            let lib = canon_dump(&r.dump).and_then(|(_, o)| lib_expected(&good, &o));
+            for (name, kind) in files.iter().zip(&results) {
+                let got = std::fs::read(w.join("o/deep/er").join(name)).ok();
+                let bad = match (*kind, &got, &lib) {
+                    ("ok", None, _) => Some("a file that optimises fine was not delivered".to_string()),
+                    ("ok", Some(g), Some(l)) if g != l => Some(format!("delivered {} bytes, the library's result has {}", g.len(), l.len())),
+                    ("failed", Some(_), _) | ("skipped", Some(_), _) => Some(format!("a {} file was delivered", kind)),
+                    _ => None,
+                };
+                if let Some(m) = bad {
+                    st.fail("routing", format!("{}: {} (results {:?}; {})", name, m, results, args.join(" ")),
+                        format!("{{\"args\": {}, \"results\": {}, \"good_png_hex\": {}, \"c2pa_png_hex\": {}}}", jstr(&args.join(" ")), jstr(&format!("{:?}", results)), jstr(&hex(&good)), jstr(&hex(&c2))));
+                    break;
+                }
+            }
         }
         // recursion: which files are taken
         if round % 2 == 0 {
